@@ -19,6 +19,8 @@ struct FileSpec {
     nodes: Vec<Node>,
     disk: PathBuf,
     rule: &'static str,
+    /// how the name is written in the `.include` line: plain, ./name, dir/name, ./dir/name, ../dir/name
+    form: &'static str,
 }
 
 struct Tree {
@@ -160,36 +162,52 @@ impl<'a> Splitter<'a> {
             let fname = format!("f{}_{}.inc", self.tag, self.counter);
             let rule = *self.rng.pick(&["absolute", "includer-dir", "includer-subdir", "caller-dir", "includepath-absolute", "includepath-relative", "includepath-relative-nested"]);
             let mut pre: Vec<Node> = vec![];
+            // the name as written is a relative path like any other: it is joined to whichever directory is searched
+            let (form, decorated): (&'static str, String) = match self.rng.below(8) {
+                0 => ("./name", format!("./{}", fname)),
+                1 => ("dir/name", format!("nm{}/{}", self.counter, fname)),
+                2 => ("./dir/name", format!("./nm{}/{}", self.counter, fname)),
+                3 => ("../dir/name", format!("../side{}/{}", self.counter, fname)),
+                _ => ("name", fname.clone()),
+            };
+            let cwd = std::env::current_dir().ok();
+            let rule = if rule == "absolute" && self.rng.chance(1, 2) && cwd.as_ref().map(|c| self.root.starts_with(c)).unwrap_or(false) { "as-written-from-working-directory" } else { rule };
             let (disk, written): (PathBuf, String) = match rule {
+                "as-written-from-working-directory" => {
+                    let d = self.root.join("cwdrel");
+                    let rel = d.strip_prefix(cwd.as_ref().unwrap()).unwrap().join(&decorated);
+                    (d.join(&decorated), rel.to_string_lossy().to_string())
+                }
                 "absolute" => {
                     let d = self.root.join("abs");
                     (d.join(&fname), d.join(&fname).to_string_lossy().to_string())
                 }
-                "includer-dir" => (dir.join(&fname), fname.clone()),
+                "includer-dir" => (dir.join(&decorated), decorated.clone()),
                 "includer-subdir" => (dir.join("sub").join(&fname), format!("sub/{}", fname)),
                 "caller-dir" => {
                     let d = self.rng.pick(&self.caller_dirs).clone();
-                    (d.join(&fname), fname.clone())
+                    (d.join(&decorated), decorated.clone())
                 }
                 "includepath-absolute" => {
                     let d = self.root.join(format!("ipabs{}", self.counter));
                     pre.push(Node::IncludePath(d.to_string_lossy().to_string()));
-                    (d.join(&fname), fname.clone())
+                    (d.join(&decorated), decorated.clone())
                 }
                 "includepath-relative" => {
                     let rel = format!("iprel{}", self.counter);
                     pre.push(Node::IncludePath(rel.clone()));
-                    (dir.join(&rel).join(&fname), fname.clone())
+                    (dir.join(&rel).join(&decorated), decorated.clone())
                 }
                 _ => {
                     // relative .includepath one level up and down again
                     let rel = format!("../up{}", self.counter);
                     pre.push(Node::IncludePath(rel.clone()));
-                    (dir.join(&rel).join(&fname), fname.clone())
+                    (dir.join(&rel).join(&decorated), decorated.clone())
                 }
             };
             let idx = self.files.len();
-            self.files.push(FileSpec { nodes: vec![], disk: disk.clone(), rule });
+            let form = if matches!(rule, "absolute" | "includer-subdir") { "name" } else { form };
+            self.files.push(FileSpec { nodes: vec![], disk: disk.clone(), rule, form });
             let child_dir = disk.parent().unwrap().to_path_buf();
             let mut final_nodes = self.split(moved, &child_dir, depth + 1);
             // `.exit` ends only the file it is in: what follows it in that file must have no effect
@@ -236,7 +254,7 @@ fn build_tree(rng: &mut Rng, case_id: u64, root_base: &Path) -> Tree {
     let main_dir = root.join("main");
     let caller_dirs = vec![root.join("callerA"), root.join("callerB")];
     let base = base_program(rng);
-    let mut sp = Splitter { rng, files: vec![FileSpec { nodes: vec![], disk: main_dir.join(format!("main{:x}.asm", case_id)), rule: "main" }], root: root.clone(), caller_dirs: caller_dirs.clone(), counter: 0, tag: format!("{:x}", case_id) };
+    let mut sp = Splitter { rng, files: vec![FileSpec { nodes: vec![], disk: main_dir.join(format!("main{:x}.asm", case_id)), rule: "main", form: "name" }], root: root.clone(), caller_dirs: caller_dirs.clone(), counter: 0, tag: format!("{:x}", case_id) };
     let main_nodes = sp.split(base, &main_dir, 0);
     sp.files[0].nodes = main_nodes;
     Tree { files: sp.files, caller_dirs, root }
@@ -325,11 +343,11 @@ fn check(ctx: &Ctx, rng: &mut Rng, case_id: u64, root_base: &Path) {
     let mut flat = vec![];
     flatten(&t, 0, &mut flat);
     let flat_src = ir::print_canonical(&flat);
-    verif::enable(verif::INCLUDE);
+    fw::hook_enable(verif::INCLUDE);
     let _ = verif::take();
     let out = fw::build_file(&main, &t.caller_dirs);
     let events = verif::take();
-    verif::enable(0);
+    fw::hook_enable(0);
     let flat_out = fw::build_str(&flat_src);
     ctx.eval(1);
     let tree_json = || {
@@ -339,10 +357,14 @@ fn check(ctx: &Ctx, rng: &mut Rng, case_id: u64, root_base: &Path) {
     // evidence: which rule resolved each include
     for e in &events {
         if let Event::Include { requested, resolved } = e {
-            let rule = t.files.iter().find(|f| normalize(&f.disk) == normalize(Path::new(resolved)) || f.disk == Path::new(resolved)).map(|f| f.rule).unwrap_or("unknown");
+            let from_cwd = std::env::current_dir().map(|c| normalize(&c.join(resolved))).unwrap_or_default();
+            let rule = t.files.iter().find(|f| normalize(&f.disk) == normalize(Path::new(resolved)) || f.disk == Path::new(resolved) || normalize(&f.disk) == from_cwd).map(|f| f.rule).unwrap_or("unknown");
             ctx.count(&format!("include-resolved:{}", rule), 1);
             let _ = requested;
         }
+    }
+    for f in t.files.iter().skip(1) {
+        ctx.count(&format!("include-name-written-as:{}", f.form), 1);
     }
     ctx.count("files_written", t.files.len() as u64);
     let depth = max_depth(&t, 0);
@@ -469,7 +491,7 @@ pub fn run(ctx: &Ctx) -> i32 {
     let _ = std::fs::remove_dir_all(&root_base);
     fw::finish(
         ctx,
-        "generated programs (device selection, .equ/label/alias definitions and uses incl. forward references, macros defined on either side and called before/after, complete conditional chains, messages, data/EEPROM segments) cut at item boundaries into trees of files up to 5 deep; each file placed by one rule: absolute path, includer's directory (also via sub/), caller-supplied directory, earlier absolute .includepath, earlier relative .includepath (also with ../); a third of the .include lines sit inside a conditional (taken branch, or the .else of an untaken branch that names files existing nowhere); a quarter of the included files end in `.exit` followed by garbage and .error; per tree one reachable file is removed (must fail naming it), then put back and the tree rebuilt on the same thread (must build as before); counters include-resolved:* = INCLUDE hook events by rule; distinct_nontrivial = distinct trees (seed, index)",
+        "generated programs (device selection, .equ/label/alias definitions and uses incl. forward references, macros defined on either side and called before/after, complete conditional chains, messages, data/EEPROM segments) cut at item boundaries into trees of files up to 5 deep; each file placed by one rule: absolute path, path as written from the working directory, includer's directory (also via sub/), caller-supplied directory, earlier absolute .includepath, earlier relative .includepath (also with ../); the name written as `name`, `./name`, `dir/name`, `./dir/name` or `../dir/name` under every rule; a third of the .include lines sit inside a conditional (taken branch, or the .else of an untaken branch that names files existing nowhere); a quarter of the included files end in `.exit` followed by garbage and .error; per tree one reachable file is removed (must fail naming it), then put back and the tree rebuilt on the same thread (must build as before); counters include-resolved:* = INCLUDE hook events by rule; distinct_nontrivial = distinct trees (seed, index)",
         &[
             "file names are unique per tree (precedence between equally named files is not specified)",
             "an .includepath issued inside an included file is only relied on for that file's own later includes",
